@@ -283,7 +283,7 @@ class AutoEngine(Engine):
     tiers = {"quick": 8000, "thorough": 1500000}
     chunks = {"quick": 40, "thorough": 1000}
     rule = ("each case is a Chooser-generated history of 3..14 (one run in four: up to 45) operations (NEW with/without the described "
-            "keyword, SET_TRACKED, SET_DESCRIBED incl. values that do not fit and falsy ones, DEL_DESCRIBED, READ, PACK, UNPACK, REPARSE) "
+            "keyword, SET_TRACKED, in-place mutation of a tracked list, SET_DESCRIBED incl. values that do not fit and falsy ones, DEL_DESCRIBED, READ, PACK, UNPACK, REPARSE) "
             "on 1..3 (or up to 6) live packets of one of thirteen freshly defined declarations (AutoLength / Auto on Int, Data and Bits; two "
             "described fields; a described field after its tracked field, in a nested packet, in element packets of a repeated Ref, "
             "aligned, chained Autos, tracking a list of packets, explicit value inherited from a Ref prototype, a recursive box whose Auto reads its children's described field) under a drawn "
@@ -301,7 +301,7 @@ class AutoEngine(Engine):
     stub_components = []
     expected_probes = ["set-delete-set", "delete-never-set", "failing-pack-then-read", "unpack-then-set",
                        "ctor-keyword-then-delete", "generated-path", "generic-path", "two-packets-one-class",
-                       "wire-value-disagrees", "long-history", "falsy-explicit", "prototype-explicit-inherited"]
+                       "wire-value-disagrees", "long-history", "falsy-explicit", "prototype-explicit-inherited", "tracked-list-mutated-in-place"]
 
     def init_worker(self, tree, wdir):
         self.tree = tree
@@ -414,8 +414,8 @@ class AutoEngine(Engine):
             return p, explicits, {"ctor_kw": any(v is not None for e in explicits for v in e.values())}, tuple(desc), inherited
 
         for step in range(nops):
-            op = 0 if not live else ch.weighted("op", [2, 4, 4, 3, 2, 5, 2, 1])
-            # 0 NEW 1 SET_TRACKED 2 SET_DESCRIBED 3 DEL_DESCRIBED 4 READ 5 PACK 6 UNPACK 7 REPARSE
+            op = 0 if not live else ch.weighted("op", [2, 4, 4, 3, 2, 5, 2, 1, 2])
+            # 0 NEW 1 SET_TRACKED 2 SET_DESCRIBED 3 DEL_DESCRIBED 4 READ 5 PACK 6 UNPACK 7 REPARSE 8 MUTATE_TRACKED (in place)
             if op == 0:
                 slot = len(live) if len(live) < max_live else ch.draw("slot", max_live)
                 p, explicits, flags, desc, inherited = new_packet()
@@ -443,6 +443,23 @@ class AutoEngine(Engine):
                     setattr(h, name, build_tracked(kind, spec))
                     history.append(("SET_TRACKED", slot, hi, name, len(spec)))
                     ev("SET_TRACKED slot=%d host=%d %s=%r" % (slot, hi, name, _short(spec)))
+                elif op == 8:
+                    lists = sorted(k for k, v in decl["tracked"].items() if v != "bytes" and v != "ro" and isinstance(getattr(h, k, None), list))
+                    if not lists:
+                        history.append(("READ", slot))
+                    else:
+                        name = ch.pick("which-list", lists)
+                        lst = getattr(h, name)
+                        if lst and ch.chance("pop?", 1, 3):
+                            lst.pop()
+                            what = "pop"
+                        else:
+                            uniq[0] += 1
+                            lst.append(build_tracked(decl["tracked"][name], [uniq[0] % 250])[0] if decl["tracked"][name].startswith("pkts:") else uniq[0] % 250)
+                            what = "append"
+                        st["probe:tracked-list-mutated-in-place"] += 1
+                        history.append(("MUTATE_TRACKED", slot, hi, name, what))
+                        ev("MUTATE_TRACKED slot=%d host=%d %s.%s() -> len %d" % (slot, hi, name, what, len(lst)))
                 elif op == 2:
                     d = ch.pick("which-described", described)
                     v = _gen_explicit(d, ch)
